@@ -37,7 +37,7 @@ type poolprogScn struct{}
 func (poolprogScn) Name() string     { return "poolprog" }
 func (poolprogScn) Property() string { return "C18" }
 
-const numProgKinds = 12
+const numProgKinds = 14
 
 func (poolprogScn) Generate(g *simrt.Rng, tier string) any {
 	p := &PoolProgPlan{Env: genEnv(g, tier)}
@@ -292,6 +292,33 @@ func runProg(nonce uint32, pr PoolProg, yield func()) (out []byte) {
 			return []byte("no error from a misused writer")
 		}
 		return []byte("error: " + err.Error())
+	case 12, 13: // a message is begun and then abandoned: its owner releases the still open writer
+		var w spec.MessageWriter
+		if pr.Kind == 12 {
+			w = spec.NewMessageWriter() // own buffer, state released automatically
+		} else {
+			w = spec.NewMessageWriterBuffer(buf) // pooled writer
+		}
+		w.Field(1).Int64(int64(pr.Arg))
+		yield()
+		m := w.Field(2).Message()
+		m.Field(1).Bytes(data)
+		yield()
+		if pr.N%2 == 0 {
+			if err := m.End(); err != nil {
+				return res(nil, err)
+			}
+		}
+		yield()
+		w.Unwrap().Free()
+		yield()
+		// afterwards a complete message of its own
+		w2 := spec.NewMessageWriterBuffer(buf)
+		w2.Field(1).Uint32(uint32(pr.Arg))
+		yield()
+		w2.Field(2).Bytes(data)
+		b, err := w2.Build()
+		return res(b, err)
 	}
 	return []byte("unknown program")
 }
